@@ -121,7 +121,7 @@ package satisfaction
 //@ func fillRemainingAlternatives
 //@   property C13 C01 C09 C14
 //@   fnparam lowestThresholdSup pure
-//@   requires 0 <= resultInsertIndex && resultInsertIndex + len(leftToChoice) <= len(result) && resultInsertIndex + len(leftToChoice) <= len(resultIds)
+//@   requires [fills_exactly_the_open_slots] 0 <= resultInsertIndex && resultInsertIndex + len(leftToChoice) == len(result) && len(resultIds) == len(result)
 //@   assigns result, resultIds
 //@   ensures [leftovers_follow_in_order] forall k int :: 0 <= k && k < len(leftToChoice) ==> result[resultInsertIndex + k].Alternative == leftToChoice[k] && resultIds[resultInsertIndex + k] == leftToChoice[k].Id
 //@             && typeis(result[resultInsertIndex + k].Evaluation, SatisfactionEvaluation) && result[resultInsertIndex + k].Evaluation.(SatisfactionEvaluation).ThresholdsIndex == thresholdIndex + 1
